@@ -38,11 +38,19 @@ TSearch ==
 
 TCollect ==
   /\ Ev.ev = "obs" /\ Ev.op = "collect"
-  /\ Ev.h \notin DOMAIN hd /\ Ev.part \notin collected /\ PartDocs(Ev.part) # {}
+  /\ Ev.h \notin DOMAIN hd /\ Ev.part \notin collected      \* the part may be empty (an index without segments)
   /\ Judge(PartDocs(Ev.part))
   /\ hd' = hd @@ (Ev.h :> PartDocs(Ev.part))
   /\ collected' = collected \cup {Ev.part}
   /\ UNCHANGED <<docs, part, req, query, phase, pool>>
+
+(* IntermediateAggregationResults::default(): the seed of a fold *)
+TEmpty ==
+  /\ Ev.ev = "obs" /\ Ev.op = "empty"
+  /\ Ev.h \notin DOMAIN hd
+  /\ Judge({})
+  /\ hd' = hd @@ (Ev.h :> {})
+  /\ UNCHANGED vars
 
 TMerge ==
   /\ Ev.ev = "obs" /\ Ev.op = "merge"
@@ -61,7 +69,7 @@ TSerFinal ==
 TEnd == Ev.ev = "end" /\ UNCHANGED <<vars, hd>>
 
 TNext == /\ l <= Len(Rec) /\ l' = l + 1
-         /\ (TCase \/ TSearch \/ TCollect \/ TMerge \/ TSerFinal \/ TEnd)
+         /\ (TCase \/ TSearch \/ TCollect \/ TEmpty \/ TMerge \/ TSerFinal \/ TEnd)
 
 TInit == /\ l = 1 /\ hd = EmptyFn /\ docs = <<>> /\ part = <<>> /\ req = <<>> /\ query = "all"
          /\ phase = "build" /\ pool = {} /\ collected = {}
